@@ -363,7 +363,24 @@ pub fn generate(prop: &str, tier: Tier, rng: &mut Rng, seed: u64, run: u64) -> P
                     }
                     _ => unit_pair(rng),
                 };
-                plan.push("TOP", &[which, ns, fb(nz(rng)), m, s]);
+                // seconds-to-Time conversions: also durations of a few nanoseconds to a few milliseconds
+                // with a fractional nanosecond count (where rounding and truncation part ways)
+                let x = if matches!(which, 9 | 10 | 11) && rng.chance(0.5) {
+                    let n = match rng.below(3) {
+                        0 => rng.range(0, 20),
+                        1 => rng.range(0, 100_000),
+                        _ => rng.range(0, 8_000_000),
+                    } as f32;
+                    let v = (n + *rng.pick(&[0.5f32, 0.25, 0.75, 0.49, 0.51, 0.0])) * 1e-9;
+                    if rng.chance(0.3) {
+                        -v
+                    } else {
+                        v
+                    }
+                } else {
+                    nz(rng)
+                };
+                plan.push("TOP", &[which, ns, fb(x), m, s]);
             }
             3 => {
                 plan.push("ST", &[fb(rng.moderate_f32()), fb(rng.moderate_f32()), fb(rng.moderate_f32())]);
